@@ -840,6 +840,10 @@ def probe(n: size, A: f32[n, n] @ DRAM, B: f32[n] @ DRAM):
     assert stride(A, 1) == 1
     Cfg.a = 1
     callee_s(n, B[0:n], stride(A, 1))
+    t: f32
+    t = 0.0
+    scal(t)
+    t = A[0, 0] + B[0]
 """
 
 
@@ -857,7 +861,8 @@ def probe_quirks():
 
     ir = p._loopir_proc
     emit({"t": "proc", "id": -1, "src": PROBE, "sexp": ex_proc(ir), "n_nodes": 0, "n_stmts": 0})
-    for pat in ("stride(A, 0)", "stride(A, 1)", "callee_s(1, 2, 3)", "callee_s(_, _, _)", "_.a = _", "Cfg._ = _", "Cfg.a = _"):
+    for pat in ("stride(A, 0)", "stride(A, 1)", "callee_s(1, 2, 3)", "callee_s(_, _, _)", "_.a = _", "Cfg._ = _", "Cfg.a = _",
+                "t[0]", "A[0]", "A[0, 0]", "A[_]", "A", "B[0]", "B[0, 5]", "t[0] = 0.0"):
         do_find(-1, p, None, [str(a.name) for a in ir.args], "find_all", pat, True, None, "known-witness")
     bits = ("1" if finds("stride(A, 0)") else "0") + ("1" if finds("callee_s(1, 2, 3)") else "0") + ("0" if finds("_.a = _") else "1")
     emit({"t": "quirks", "bits": bits, "src": PROBE})
